@@ -21,8 +21,15 @@ CLAIM = ('Proved in Coq for the model, END TO END for Numbers naming with KeepLo
          'stream, the file being written is plain (C07_tail_sound, C07_limits_sound: soundness of these oracles). The model '
          '(synchronous and queued background cleanup, compression step by step) is tied to the code by the correspondence check: '
          "partial. With cleanup in the background thread the same end-to-end statement holds under the model's and harness's "
-         'scheduling, in which each request is finished before the next operation (C07_numbers_cleanup_bg). ')
-THEOREMS = ["C07_numbers_cleanup", "C07_numbers_cleanup_vs_never", "C07_listing_sorted", "C07_listing_restart_order", "C07_listing_plain_last", "C07_compress_lossless", "C07_cleanup_keeps_newest", "C07_tail_sound", "C07_limits_sound", "C07_numbers_cleanup_bg"]
+         'scheduling, in which each request is finished before the next operation (C07_numbers_cleanup_bg). Also proved END TO '
+         'END for NumbersDirect naming (cleanup in the logging thread): the file being written, r<L>, is entry 0 of the listing '
+         'and counts for the first limit, which the code raises from 0 to 1 - this alone protects it -; in the end exactly the '
+         'current file, the newest max(1,n)-1 closed files (plain) and the next m (complete archives of exactly what the file '
+         'held) exist, the current file is never compressed or removed, and what survives is a suffix of what was written '
+         '(C07_numbersdirect_cleanup, C07_numbersdirect_cleanup_vs_never, C07_numbersdirect_cleanup_no_panic; side conditions '
+         'shown necessary: suffix not ending in .gz, index of the current file below 100000 - at index 100000 the listing, which '
+         'orders number infixes as text, takes r99999 for the file being written: see DESIGN.md section 9). ')
+THEOREMS = ["C07_numbers_cleanup", "C07_numbers_cleanup_vs_never", "C07_listing_sorted", "C07_listing_restart_order", "C07_listing_plain_last", "C07_compress_lossless", "C07_cleanup_keeps_newest", "C07_tail_sound", "C07_limits_sound", "C07_numbers_cleanup_bg", "C07_numbersdirect_cleanup", "C07_numbersdirect_cleanup_vs_never", "C07_numbersdirect_cleanup_no_panic"]
 TRUSTED = ["modelled, not verified: flate2 (validated by decompressing every archive), read_dir, the keyed sort of the listing (modelled as insertion sort by the same key), "
            "the background cleanup thread is modelled as a queue drained at shutdown (interleavings with rotations: not explored here)"]
 ASSUMPTIONS = ["no I/O faults, no kill, no foreign files; the same cleanup strategy in all runs of a history"]
